@@ -46,7 +46,7 @@ class Model:
         self.classes, self.functions, self.imports, self.module_assigns = {}, {}, {}, {}
         self.locals_table, self.alpha_applied, self.noise_removed, self.temps_inlined = alpha.load_table(), [], 0, []
         self.compare_table, self.comparisons_turned, self.conditionals_merged = alpha.load_compare_table(), 0, 0
-        self.loop_table, self.loops_restored = alpha.load_loop_table(), 0
+        self.loop_table, self.loops_restored, self.fstrings = alpha.load_loop_table(), 0, 0
         for dp, dn, fns in os.walk(root):
             dn[:] = [d for d in dn if d != "__pycache__"]
             for f in sorted(fns):
@@ -61,6 +61,7 @@ class Model:
                 self.modules[name] = ast.parse(src, filename=p)
                 self.modules[name]._path = p
                 self.noise_removed += alpha.strip_noise(self.modules[name])         # pass / assert / print / logging statements
+                self.fstrings += alpha.fstrings_to_format(self.modules[name])         # f'{a}' is '{}'.format(a)
                 alpha.split_tuple_assigns(self.modules[name])                         # one binding per statement
                 for _ in range(4):
                     if not alpha.unnest_else_after_leave(self.modules[name]):         # else after a branch that always leaves = the rest of the block
